@@ -7,6 +7,7 @@ project compared with the reference deletion set.
 import fnmatch
 import itertools
 import json
+import os
 
 from mc import cliworld as CW
 from mc import world as W
@@ -86,6 +87,7 @@ def case_batch(acc, batch):
     for item in batch:
         wname, plabel, missing = item[:3]
         symlinked = item[3] if len(item) > 3 else None
+        where = item[4] if len(item) > 4 else "proj"  # directory gwf is started from: the project, a sub-directory (workflow found upwards), a sub-directory with -f
         defs = workflows()[wname]
         prot = dict(protect_variants(defs))[plabel]
         names = [d[0] for d in defs]
@@ -100,19 +102,26 @@ def case_batch(acc, batch):
             # never the file it points to
             files[symlinked] = (files.get(symlinked, (2, ""))[0], ("symlink", "unrelated.txt"))
         files["sub/other"] = (1, "keep me too")
+        if where != "proj":
+            # decoys: files with the declared outputs' relative names under the directory gwf is started from
+            for p in declared:
+                files.setdefault("sub/" + p, (1, "decoy:" + p))
         hashes = {n: W.sha1(f"echo {n}\n") for n in names}
         w0 = W.World(wf, files=files, conf={"backend": "slurm", "use_spec_hashes": True}, tracked={"slurm": {names[0]: "1"}}, hashes=hashes,
                      logs={names[0] + ".stdout": "log\n", "Old.stderr": "old\n"})
         for allf, force, tg, ans in cli_variants(names):
             args = ["clean"] + (["--all"] if allf else []) + (["-f"] if force else []) + tg
             with W.Session(w0) as s:
-                r = s.gwf(args, input=ans)
+                if where == "proj":
+                    r = s.gwf(args, input=ans)
+                else:
+                    r = s.gwf((["-f", "../workflow.py"] if where == "subdir-f" else []) + args, input=ans, cwd=os.path.join(s.proj, "sub"))
                 after = s.snapshot()
                 journal = [e for e in s.sim.s["journal"] if e["op"] in ("submit", "cancel")]
             acc.extra["invocations"] += 1
-            case = dict(wf=wname, protect=plabel, missing=missing, args=args, answer=ans, symlinked=symlinked)
+            case = dict(wf=wname, protect=plabel, missing=missing, args=args, answer=ans, symlinked=symlinked, where=where)
             declined = ans in ("n\n", "")
-            sel, exp_removed = expected(defs, prot, set(files) - {"unrelated.txt", "sub/other"}, allf, tg)
+            sel, exp_removed = expected(defs, prot, {p for p in files if p in declared}, allf, tg)
             exp_files = dict(w0.files)
             exp_hashes = dict(hashes)
             if not declined:
@@ -141,7 +150,7 @@ def case_batch(acc, batch):
             if problems:
                 acc.violation(sig=dict(what=problems[0].split(":")[0][:40], protect="spelled" if ":sp" in plabel and not plabel.endswith("sp0") else plabel.split(":")[0] if ":" not in plabel else "same"),
                               case=case, expected=dict(removed=sorted(exp_removed), selected=sorted(sel)), observed=problems,
-                              msg=f"`gwf {' '.join(args)}` (answer {ans!r}) on {wname}, protect={plabel}, missing={missing}: {problems}")
+                              msg=f"`gwf {' '.join(args)}` (answer {ans!r}, started from {where}) on {wname}, protect={plabel}, missing={missing}: {problems}")
 
 
 def run(ctx):
@@ -161,10 +170,14 @@ def run(ctx):
         for o in outs[:2] if quick else outs:
             if "/" not in o:
                 items.append((wname, "none", (), o))
+    for wname in workflows():
+        for where in ("subdir", "subdir-f"):
+            for plabel in ("none", "all") if quick else [l for l, _ in protect_variants(workflows()[wname])]:
+                items.append((wname, plabel, (), None, where))
     ctx.pmap(me, "case_batch", items, chunk=2)
     ctx.pmap(me, "fresh_compare_batch", freshtier.items([(["clean", "-f", "--all"], None), (["clean"], "n\n"), (["clean", "A"], None), (["clean", "--all", "C"], None)], backends=("slurm", "sge", "lsf") if ctx.tier != "quick" else ("slurm", "lsf")), chunk=2)
     ctx.notes.setdefault("coverage_extra", {})["fresh_process_cases"] = ctx.acc.extra["fresh_processes"]
-    ctx.rule = "case = (workflow, protect set incl. spelling, set of missing outputs, --all, --force, target arguments, prompt answer); non-trivial = all"
+    ctx.rule = "case = (workflow, protect set incl. spelling, set of missing outputs, --all, --force, target arguments, prompt answer, directory gwf is started from); non-trivial = all"
     ctx.bound = dict(workflows=list(workflows()), protect_spellings=len(SPELLINGS), cli_variants=len(cli_variants(["A", "B", "C"])), items=len(items))
     ctx.assumptions = ["lexical normalisation of protect paths (same as outputs)"]
 
@@ -181,5 +194,5 @@ def replay(case):
     from mc.runner import Acc
 
     acc = Acc()
-    case_batch(acc, [(case["wf"], case["protect"], tuple(case["missing"]), case.get("symlinked"))])
+    case_batch(acc, [(case["wf"], case["protect"], tuple(case["missing"]), case.get("symlinked"), case.get("where", "proj"))])
     return [v for v in acc.violations if v["case"]["args"] == case["args"] and v["case"]["answer"] == case["answer"]]
